@@ -83,6 +83,16 @@ CHECKS = {
              "router.go, cert.go and autocert's pre-ACME decisions by correspondence including real Router.GetCertificate calls.",
         note="No axioms. TLS handshake, ACME exchange and non-ASCII IDNA not modelled; ACME challenge paths are residue. Repaired defect (IPv6 redirect lost brackets) kept as refuted lemma on the pinned function.",
         technique="Coq proof (per-byte case analysis, invariants over exec) + kernel-evaluated differential correspondence on a virtual clock", ref="§7 C16"),
+    "C19": dict(
+        text="Theorems on model/Logging.v (props/C19.v: logged status = last WriteHeader / successful Hijack (101), 200 if none, equal to the status "
+             "the client is told under a coherence condition every path of the modelled chain satisfies; logged length = sum of bytes the underlying "
+             "writer accepted; exactly one record on return and on panic; host/path/query/method/request id/service/target/extra headers as projections). "
+             "Correspondence: (a) the real LoggingMiddleware around scripted handlers/writers (all call sequences up to length 2/3), (b) a real Server with "
+             "captured JSON records joined with what a raw client and scripted targets saw for 24 ending classes x header lists x request ids x queries.",
+        note="No axioms. That a deferred call runs once (also on panic) is Go semantics, observed; net/http's status rules modelled. Two recorded findings "
+             "(known_findings/C19.json: HEAD + proxy error page logged with the page length; server-generated Date not visible to the logger); repaired defect "
+             "59cbdb7 (buffered 103 Early Hints lost the final status) kept as refuted lemma on the pinned writer.",
+        technique="Coq proof (fold invariants over writer operations, case analysis over chain endings) + kernel-evaluated two-level correspondence", ref="§7 C19"),
     "C20": dict(
         text="Theorems on model/Cli.v (props/C20.v: option precedence, atoi/ParseBool, deploy pre-run table, exit rule, list renderer round trip); "
              "correspondence on the BUILT BINARY (run option matrix, deploy validation matrix without a proxy, every client command against a running proxy, list output).",
